@@ -48,6 +48,40 @@ impl<T> Slab<T> {
             r is Some ==> *(r->0) == old(self)@[key] && final(self)@ == old(self)@.insert(key, *final(r->0)),
             r is None ==> final(self)@ == old(self)@,
     { unimplemented!() }
+
+    #[verifier::external_body]
+    pub fn len(&self) -> (r: usize)
+        ensures self@.dom().finite(), r == self@.dom().len(),
+    { unimplemented!() }
+
+    #[verifier::external_body]
+    pub fn is_empty(&self) -> (r: bool)
+        ensures r <==> self@.dom() =~= Set::<usize>::empty(),
+    { unimplemented!() }
+
+    #[verifier::external_body]
+    pub fn contains(&self, key: usize) -> (r: bool)
+        ensures r == self@.dom().contains(key),
+    { unimplemented!() }
+
+    #[verifier::external_body]
+    pub fn get(&self, key: usize) -> (r: Option<&T>)
+        ensures
+            r is Some <==> self@.dom().contains(key),
+            r is Some ==> *(r->0) == self@[key],
+    { unimplemented!() }
+
+    #[verifier::external_body]
+    pub fn clear(&mut self)
+        ensures final(self)@ == Map::<usize, T>::empty(),
+    { unimplemented!() }
+
+    // weakest sound reading: retain only removes entries (it hands each value to the closure
+    // mutably, so nothing is promised about the values that stay)
+    #[verifier::external_body]
+    pub fn retain<F: FnMut(usize, &mut T) -> bool>(&mut self, f: F)
+        ensures forall|k: usize| #![auto] final(self)@.dom().contains(k) ==> old(self)@.dom().contains(k),
+    { unimplemented!() }
 }
 
 // ------------------------------------------------------------------ X4: lock model
@@ -146,7 +180,9 @@ impl ResolveRegistry {
             final(self)@.dom().contains(r.id.0 as usize) ==> final(self)@[r.id.0 as usize] == effect.serialize_spec().1, // [C09/register/entry-is-the-effects-own-continuation]
             kind(effect.serialize_spec().1) != 0 ==> final(self)@.dom().contains(r.id.0 as usize), // [C09/register/resolvable-request-is-remembered]
             kind(effect.serialize_spec().1) == 0 ==> final(self)@ == old(self)@, // [C13/register/request-that-can-never-be-resolved-is-not-remembered]
-//@rule X4.lock-erasure 1 s/self\s*\.0\s*\.lock\(\)\s*\.expect\("[^"]*"\)/(&mut self.0.inner)/
+//@rule X4.lock-erasure * s/self\s*\.0\s*\.lock\(\)\s*\.expect\("[^"]*"\)/(&mut self.0.inner)/
+//@rule X8.closure-wildcard * s/\|_\|/|_e|/
+//@rule X8.closure-wildcard * s/\|_,/|_k,/
 //@end
 
 //@extract id=ResolveRegistry::resume file=crux_core/src/bridge/registry.rs within="impl ResolveRegistry" item="fn resume" props=C09+C12+C13
@@ -163,7 +199,9 @@ impl ResolveRegistry {
             kind(resolve_next(old(self)@[id.0 as usize], *old(body))) == 0 ==> !final(self)@.dom().contains(id.0 as usize), // [C13/resume/consumed-or-never-entry-is-forgotten]
             r == Err::<(), BridgeError>(BridgeError::ProcessResponse(ResolveError::FinishedMany)) ==> !final(self)@.dom().contains(id.0 as usize), // [C13/resume/ended-stream-is-forgotten]
             !unresolvable(resolve_next(old(self)@[id.0 as usize], *old(body)), r) ==> final(self)@.dom().contains(id.0 as usize), // [C09+C13/resume/live-subscription-not-torn-down]
-//@rule X4.lock-erasure 1 s/self\s*\.0\s*\.lock\(\)\s*\.expect\("[^"]*"\)/(&mut self.0.inner)/
+//@rule X4.lock-erasure * s/self\s*\.0\s*\.lock\(\)\s*\.expect\("[^"]*"\)/(&mut self.0.inner)/
+//@rule X8.closure-wildcard * s/\|_\|/|_e|/
+//@rule X8.closure-wildcard * s/\|_,/|_k,/
 //@end
 }
 
